@@ -1043,6 +1043,53 @@ def r_extension_dispatch(repo, rep, R='R15.7'):
               'the dispatch on the file name sends *.jigg.xml files to the wrong reader: read_jigg_xml under %s, read_xml under %s' % (jigg, candc))
 
 
+def r_extension_dispatch_text(repo, rep, R, reader):
+    """the line-oriented readers are chosen by how the file name ENDS: read_ptb for *.ptb, read_auto for every name that
+    ends in none of the other readers' suffixes -- `corpus.ptb.auto`, `questions.xml.auto` are AUTO files.  (A table keyed
+    by os.path.splitext is the same choice; membership of a suffix anywhere in the name is not.)"""
+    rm = repo.module(RD)
+    fn = rm.get('read_trees_guess_extension')
+    w = '%s:%s %s' % (RD, fn.lineno, fn.name)
+    p = fn.args.args[0].arg
+    reached = []
+    uses_split = False
+    for st, o in SymExec(fn, unroll=1).run():
+        conds = [(c, pol) for c, pol, _ in st.conds]
+        for t0 in terms_of(st):
+            for x in subterms(t0):
+                if x[0] == 'call' and x[1][0] == 'attr' and x[1][2] in ('splitext',):
+                    uses_split = True
+        for c in all_calls(st):
+            f = c[1]
+            nm = f[1] if f[0] == 'name' else (f[1] if f[0] == 'func' else None)
+            if nm == reader and c[2] and c[2][0] == N(p):
+                ends, other = {}, []
+                for cnd, pol in conds:
+                    if cnd[0] == 'call' and cnd[1] == A(N(p), 'endswith') and len(cnd[2]) == 1 and cnd[2][0][0] == 'const':
+                        ends[cnd[2][0][1]] = pol
+                    elif cnd[0] == 'call' and cnd[1] == A(N(p), 'endswith') and len(cnd[2]) == 1 and cnd[2][0][0] in ('tuple', 'list') \
+                            and all(x_[0] == 'const' for x_ in cnd[2][0][1]):
+                        for x_ in cnd[2][0][1]:
+                            ends[x_[1]] = pol
+                    elif any(x_[0] == 'const' and isinstance(x_[1], str) and x_[1].startswith('.') and len(x_[1]) > 1 for x_ in subterms(cnd)):
+                        other.append(show(cnd)[:50])        # another kind of test on an extension
+                reached.append((ends, other))
+    if uses_split:
+        rep.check(True, R, w, 'reader:extension-dispatch:' + reader, 'the reader is chosen by the last suffix of the file name (os.path.splitext)', '')
+        return
+    if not reached:
+        raise AnalysisError('%s: %s does not reach %s' % (RD, fn.name, reader))
+    if reader == 'read_auto':
+        ok = all(e.get('.xml') is False and e.get('.ptb') is False and not other for e, other in reached)
+        want = 'every name that ends neither in .xml nor in .ptb is read as an AUTO file'
+    else:
+        ok = all(e.get('.ptb') is True and e.get('.xml') is not True and not other for e, other in reached)
+        want = 'a name that ends in .ptb is read as a PTB file'
+    rep.check(ok, R, w, 'reader:extension-dispatch:' + reader, want,
+              '%s is reached under %s: the choice is not made by how the name ends, so a file such as corpus.ptb.auto / corpus.xml.auto (or corpus.auto.ptb) goes to another reader than the one for its format'
+              % (reader, [(sorted(e.items()), other) for e, other in reached][:2]))
+
+
 def r_jigg_category(repo, rep, R='R15.8'):
     """Jigg spells a one-valued feature as an attribute-value pair: S[dcl] -> S[dcl=true].  Whether the writer walks the
     category or rewrites its text, every feature of the English inventories (lower case, upper case X, digits) is covered."""
